@@ -1,27 +1,52 @@
-import OmplModel.Model.SpaceDist
+import OmplModel.Model.SpaceDistX
 import OmplModel.Driver.SpaceIO
 /-!
 Line-protocol driver of the C06 model.
 
   header : `spacedist` [space]              (a space may be declared in the header …)
   ops    : `space <space>`                  → `ok`            (… or re-declared at any time)
-           `dist <stateA> <stateB>`         → `d <bits>`
+           `dist <stateA> <stateB>`         → `d <bits>`      (`+∞` as the bits of inf)
            `equal <stateA> <stateB>`        → `eq 0|1`
            `inbounds <state>`               → `in 0|1`
            `extent`                         → `ext <bits>`
            `claims`                         → `claims metric=b symdist=b syminterp=b discrete=b`
+
+space grammar: Driver/SpaceIO.lean plus, at top level,
+  `empty` | `spacetime <vmax> <timeWeight> (u | b <lo> <hi>) <space>` |
+  `projected|atlas|tangentbundle <space>` | `cforest <space of this grammar>`
 -/
 namespace OmplModel.Driver.SpaceDistDrv
 open OmplModel OmplModel.Driver OmplModel.SpaceDist
 
 structure St where
-  sp : Option (Space Float)
+  sp : Option (SpaceX Float)
+
+partial def pSpaceX : P (SpaceX Float)
+  | "empty" :: r => some (.empty, r)
+  | "spacetime" :: r => do
+    let (vmax, r) ← pFloat r
+    let (tw, r) ← pFloat r
+    match r with
+    | "u" :: r => do
+      let (inner, r) ← pSpace r
+      pure (.spacetime vmax tw false 0 0 inner, r)
+    | "b" :: r => do
+      let (lo, r) ← pFloat r
+      let (hi, r) ← pFloat r
+      let (inner, r) ← pSpace r
+      pure (.spacetime vmax tw true lo hi inner, r)
+    | _ => none
+  | "projected" :: r => do let (s, r) ← pSpace r; pure (.constrained s, r)
+  | "atlas" :: r => do let (s, r) ← pSpace r; pure (.constrained s, r)
+  | "tangentbundle" :: r => do let (s, r) ← pSpace r; pure (.constrained s, r)
+  | "cforest" :: r => do let (s, r) ← pSpaceX r; pure (.cforest s, r)
+  | r => do let (s, r) ← pSpace r; pure (.base s, r)
 
 def init (ts : List String) : Option St :=
   match ts with
   | ["spacedist"] => some ⟨none⟩
   | "spacedist" :: rest =>
-    match pSpace rest with
+    match pSpaceX rest with
     | some (sp, []) => some ⟨some sp⟩
     | _ => none
   | _ => none
@@ -34,23 +59,35 @@ def isDiscrete : Space Float → Bool
   | .wrap s => isDiscrete s
   | _ => false
 
+def isDiscreteX : SpaceX Float → Bool
+  | .base s => isDiscrete s
+  | .constrained s => isDiscrete s
+  | .cforest s => isDiscreteX s
+  | _ => false
+
+def inf : Float := 1.0 / 0.0
+def optBits : Option Float → String
+  | some x => floatBits x
+  | none => floatBits inf
+
 def step (st : St) (ts : List String) : St × String :=
   match ts with
   | "space" :: rest =>
-    match pSpace rest with
+    match pSpaceX rest with
     | some (sp, []) => (⟨some sp⟩, "ok")
     | _ => (st, "bad-op")
   | op :: rest =>
     match st.sp with
     | none => (st, "bad-op")
-    | some sp =>
+    | some sx =>
+      let sp := sx.layout
       match op with
       | "dist" =>
         match pState sp rest with
         | some (a, r) =>
           match pState sp r with
           | some (b, []) =>
-            if sp.wellTyped a && sp.wellTyped b then (st, "d " ++ floatBits (dist sp a b)) else (st, "bad-op")
+            if sp.wellTyped a && sp.wellTyped b then (st, "d " ++ optBits (distX sx a b)) else (st, "bad-op")
           | _ => (st, "bad-op")
         | none => (st, "bad-op")
       | "equal" =>
@@ -58,17 +95,17 @@ def step (st : St) (ts : List String) : St × String :=
         | some (a, r) =>
           match pState sp r with
           | some (b, []) =>
-            if sp.wellTyped a && sp.wellTyped b then (st, "eq " ++ b2s (equalStates sp a b)) else (st, "bad-op")
+            if sp.wellTyped a && sp.wellTyped b then (st, "eq " ++ b2s (equalX sx a b)) else (st, "bad-op")
           | _ => (st, "bad-op")
         | none => (st, "bad-op")
       | "inbounds" =>
         match pState sp rest with
-        | some (a, []) => if sp.wellTyped a then (st, "in " ++ b2s (satisfiesBounds sp a)) else (st, "bad-op")
+        | some (a, []) => if sp.wellTyped a then (st, "in " ++ b2s (inBoundsX sx a)) else (st, "bad-op")
         | _ => (st, "bad-op")
-      | "extent" => if rest.isEmpty then (st, "ext " ++ floatBits (maxExtent sp)) else (st, "bad-op")
+      | "extent" => if rest.isEmpty then (st, "ext " ++ optBits (extentX sx)) else (st, "bad-op")
       | "claims" =>
         if rest.isEmpty then
-          (st, s!"claims metric={b2s (claimsMetric sp)} symdist=1 syminterp=1 discrete={b2s (isDiscrete sp)}")
+          (st, s!"claims metric={b2s (claimsMetricX sx)} symdist=1 syminterp=1 discrete={b2s (isDiscreteX sx)}")
         else (st, "bad-op")
       | _ => (st, "bad-op")
   | [] => (st, "bad-op")
